@@ -429,6 +429,13 @@ func cmdCheck(args []string) int {
 		report(r, "obligation refuted by "+r.V.Solver)
 	}
 	for _, r := range undecided {
+		if r.V.Status == "error" {
+			fmt.Printf("ENGINE-ERROR property=%s obligation=%s every solver rejected the query: %s\n", *prop, r.O.Name, firstLine(r.V.Output))
+			if exit == 0 {
+				exit = 3
+			}
+			continue
+		}
 		if kf := isKnown(r.O.Name); kf != nil {
 			fmt.Printf("KNOWN-FINDING: property=%s %s\n", *prop, kf.text)
 			knownHit = append(knownHit, r)
